@@ -289,6 +289,17 @@ def direct_samples(fails, rng, n, only=None):
             if isinstance(r2, BaseException) or set(s2.activity) != set(s.activity) or any(
                     not all(close(4 * a, float(b), 1e-12, amp=4) for a, b in zip(got[k], s2.activity[k])) for k in got):
                 fails.add("C14:sample-not-linear-in-mass", "Sample(%r) at 4 x mass is not 4 x the activation" % formula, **where)
+            # the result describes the calculation just made: the same Sample object calculated again (other exposure,
+            # then the first one again) gives what a fresh Sample gives
+            r3 = attempt(s.calculate_activation, env, exposure=expo * 3, rest_times=rest)
+            r4 = attempt(s.calculate_activation, env, exposure=expo, rest_times=rest)
+            if isinstance(r3, BaseException) or isinstance(r4, BaseException) or set(s.activity) != set(got) or any(
+                    [float(x) for x in s.activity[k]] != got[k] for k in got):
+                k = next((k for k in got if k not in s.activity or [float(x) for x in s.activity[k]] != got[k]), None)
+                fails.add("C14:sample-recalculation", "Sample(%r) calculated, calculated for 3 x the exposure, and calculated again as at "
+                          "first: activity of %s is %r, a fresh Sample gives %r"
+                          % (formula, (k.isotope + " -> " + k.daughter) if k is not None else "a product",
+                             [float(x) for x in s.activity.get(k, [])] if k is not None else None, got.get(k)), **where)
 
 
 LABELS = [("Thermal", "thermalXS"), ("Resonance", "resonance"), ("in hr", "Thalf_hrs"), ("parent", "Thalf_parent"),
